@@ -16,6 +16,7 @@ import (
 
 	"verifharness/doubles"
 	"verifharness/drv"
+	"verifharness/gen"
 	"verifharness/ref"
 	"verifharness/san"
 )
@@ -94,6 +95,13 @@ func runSkipper(which int, b []byte, t byte, r *rand.Rand, sched int, withData b
 			o := skipOut{ok: err == nil, n: nb.RI, err: err}
 			if err == nil && br.Readn() != int64(nb.RI) {
 				o.note = "Readn != reader position"
+			}
+			if err != nil {
+				// the same BufferReader goes on with what the stream delivers next: a well-formed value
+				// nested 40..63 levels must be skipped exactly, whatever the rejected call left behind
+				if o.secondCall = bufReaderAfterRejection(br, nb, r); o.secondCall != "" {
+					o.secondCall = fmt.Sprintf("after a rejected Skip(type %d): %s", t, o.secondCall)
+				}
 			}
 			return o
 		})
@@ -456,4 +464,153 @@ func stackFastReadRun(in []byte, which int, pad int, res *stackSkipResult) {
 	default:
 		res.n, res.err = thrift.NewApplicationException(0, "").FastRead(buf[:l])
 	}
+}
+
+var deepAfterRejection [][]byte
+var deepAfterRejectionT []byte
+
+// bufReaderAfterRejection lets the stream of nb continue with a deep well-formed value and skips it
+// with the same BufferReader.
+func bufReaderAfterRejection(br *thrift.BufferReader, nb *doubles.NBReader, r *rand.Rand) string {
+	if deepAfterRejection == nil {
+		for _, d := range []int{40, 55, 63} {
+			for _, k := range []byte{ref.STRUCT, ref.LIST, ref.MAP} {
+				deepAfterRejection = append(deepAfterRejection, gen.Nested(k, d, 0))
+				deepAfterRejectionT = append(deepAfterRejectionT, k)
+			}
+		}
+	}
+	i := r.Intn(len(deepAfterRejection))
+	v, t := deepAfterRejection[i], deepAfterRejectionT[i]
+	nb.B, nb.RI = v, 0
+	if err := br.Skip(thrift.TType(t)); err != nil {
+		return fmt.Sprintf("the next value on the same BufferReader (well-formed, %d bytes, type %d) was rejected: %v", len(v), t, err)
+	}
+	if nb.RI != len(v) {
+		return fmt.Sprintf("the next value on the same BufferReader (well-formed, %d bytes) was skipped as %d bytes", len(v), nb.RI)
+	}
+	return ""
+}
+
+// ---- multi-gigabyte inputs made of untouched zero pages ----
+
+type vcase struct {
+	name string
+	t    byte
+	head []byte
+	per  int // bytes per declared unit
+	size uint32
+	wrap bool // inside a struct field
+}
+
+// virtualCases: strings and fixed-size-element containers whose size field is 0x7fffffff (largest legal), has
+// the sign bit set, or makes the payload cross 2^31 / 2^32 bytes.
+func virtualCases() []vcase {
+	var vcs []vcase
+	for _, wrap := range []bool{false, true} {
+		for _, sz := range []uint32{0x7fffffff, 0x80000000, 0x80000001, 0xfffffff0, 0xffffffff} {
+			vcs = append(vcs,
+				vcase{"string", ref.STRING, ref.U32(nil, sz), 1, sz, wrap},
+				vcase{"list<byte>", ref.LIST, ref.EncListBegin(nil, ref.BYTE, sz), 1, sz, wrap},
+				vcase{"set<i16>", ref.SET, ref.EncListBegin(nil, ref.I16, sz), 2, sz, wrap},
+				vcase{"map<byte,bool>", ref.MAP, ref.EncMapBegin(nil, ref.BYTE, ref.BOOL, sz), 2, sz, wrap})
+		}
+		// well-formed containers whose payload (count x element size) crosses 2^31 and 2^32 bytes
+		vcs = append(vcs,
+			vcase{"list<i32> 2GiB", ref.LIST, ref.EncListBegin(nil, ref.I32, 1<<29), 4, 1 << 29, wrap},
+			vcase{"list<i64> 4GiB+", ref.LIST, ref.EncListBegin(nil, ref.I64, 1<<29+3), 8, 1<<29 + 3, wrap},
+			vcase{"set<double> 2GiB+", ref.SET, ref.EncListBegin(nil, ref.DOUBLE, 1<<28+1), 8, 1<<28 + 1, wrap},
+			vcase{"map<i64,i64> 4GiB+", ref.MAP, ref.EncMapBegin(nil, ref.I64, ref.I64, 1<<28+1), 16, 1<<28 + 1, wrap},
+			vcase{"map<i32,i16> 3GiB", ref.MAP, ref.EncMapBegin(nil, ref.I32, ref.I16, 1<<29), 6, 1 << 29, wrap})
+	}
+	return vcs
+}
+
+// runVirtualCase gives one such input to the skippers that do not have to buffer it and judges acceptance and
+// extent (contents are never touched: address space, not memory).
+func runVirtualCase(cs *drv.Case, vc vcase) {
+	head := vc.head
+	t := vc.t
+	if vc.wrap {
+		head = append(ref.EncFieldBegin(nil, vc.t, 3), head...)
+		t = ref.STRUCT
+	}
+	total := len(head) + int(vc.size)*vc.per
+	if vc.wrap {
+		total++ // STOP: the last zero byte
+	}
+	mem, free := san.Virtual(total + 16)
+	defer free()
+	copy(mem, head)
+	b := mem[:total]
+	negative := vc.size >= 0x80000000
+	cs.Desc = M{"shape": vc.name, "size_field": vc.size, "in_struct": vc.wrap, "input_bytes": total, "head_hex": hexOf(head)}
+	tt := thrift.TType(t)
+	type run struct {
+		name string
+		f    func() skipOut
+	}
+	runs := []run{
+		{"Binary.Skip", func() skipOut { n, err := thrift.Binary.Skip(b, tt); return skipOut{ok: err == nil, n: n, err: err} }},
+		{"BufferReader.Skip/NB", func() skipOut {
+			nb := &doubles.NBReader{B: b}
+			br := thrift.NewBufferReader(nb)
+			defer br.Recycle()
+			err := br.Skip(tt)
+			return skipOut{ok: err == nil, n: nb.RI, err: err}
+		}},
+		{"SkipDecoder/NB", func() skipOut {
+			nb := &doubles.NBReader{B: b}
+			d := thrift.NewSkipDecoder(nb)
+			defer d.Release()
+			out, err := d.Next(tt)
+			return skipOut{ok: err == nil, n: len(out), err: err}
+		}},
+		{"BytesSkipDecoder", func() skipOut {
+			d := thrift.NewBytesSkipDecoder(b)
+			defer d.Release()
+			out, err := d.Next(tt)
+			return skipOut{ok: err == nil, n: len(out), err: err}
+		}},
+		{"BufferReader.Skip/BytesReader", func() skipOut {
+			rd := bufiox.NewBytesReader(b)
+			br := thrift.NewBufferReader(rd)
+			defer br.Recycle()
+			err := br.Skip(tt)
+			o := skipOut{ok: err == nil, n: rd.ReadLen(), err: err}
+			rd.Release(nil)
+			return o
+		}},
+		{"SkipDecoder/BytesReader", func() skipOut {
+			rd := bufiox.NewBytesReader(b)
+			d := thrift.NewSkipDecoder(rd)
+			defer d.Release()
+			out, err := d.Next(tt)
+			o := skipOut{ok: err == nil, n: len(out), err: err}
+			rd.Release(nil)
+			return o
+		}},
+	}
+	for _, rn := range runs {
+		o := guarded(rn.f)
+		det := M{"skipper": rn.name, "type": t, "shape": vc.name, "size_field": fmt.Sprintf("%#x", vc.size), "in_struct": vc.wrap,
+			"input": fmt.Sprintf("%s followed by %d zero bytes", hexOf(head), total-len(head)), "observed": o.String()}
+		switch {
+		case o.panic != nil:
+			cs.Fail("skip-panic", M{"skipper": rn.name}, det)
+		case negative && o.ok:
+			cs.Fail("skip-accepted-malformed", M{"skipper": rn.name, "causes": []string{"NEGATIVE"}}, det)
+		case !negative && !o.ok:
+			cs.Fail("skip-rejected-wellformed", M{"skipper": rn.name}, det)
+		case !negative && o.n != total:
+			cs.Fail("skip-wrong-extent", M{"skipper": rn.name}, det)
+		}
+		if negative {
+			cs.C.Obs("sign-bit sizes followed by that many bytes", 1)
+		} else {
+			cs.C.Obs("2 GiB values accepted", 1)
+		}
+	}
+	cs.Count(true, "virtual", vc.name, vc.size, vc.wrap)
+	cs.C.ObsMax("max_virtual_input_bytes", int64(total))
 }
